@@ -20,6 +20,10 @@ CHECKS = {
         technique='declarative matching relation in TLA+ (Unify.tla) with laws model-checked by TLC; every state of the bounded model replayed into real Unification objects; real calls and TLC-generated life-cycle histories trace-validated',
         text='MCUnify checks the relation\'s laws on 6 pattern pairs x all pairs of depth-1 universes (both feature systems) and emits each state as a vector; the vectors, the pattern pairs intercepted from en.py/ja.py and random linear patterns on inventory / instantiated / perturbed inputs are run on real matchers; verdict, every binding, read-after-failure and answer-once are judged by UnifyTrace.tla; all length-4 life-cycle histories of UnifyObj.tla are replayed',
         ref='6/C06'),
+    'C03': dict(
+        technique='CCG schemas transcribed into TLA+ (GrammarEn.tla), laws model-checked by TLC; TLC-enumerated category pairs replayed into en.apply_binary_rules and every recorded application trace-validated against the schemas',
+        text='MCGrammarEn checks that required results are justified etc. on all pairs of bounded universes and emits every pair; these pairs, the test triples, seen rules, inventory pairs and closure rounds are applied with the real rule function in worker processes and each result is accepted only if the schema its label names justifies it (RulesTrace.tla); results required by identical matched parts must be present',
+        ref='6/C03'),
 }
 NOT_YET = 'check not built yet (build in progress; see DESIGN.md section 12)'
 
